@@ -287,6 +287,55 @@ fn hostile_shapes(quick: bool) -> Vec<(String, String, Option<String>)> {
         many.push('\n');
     }
     v.push(("many-prints-150000".into(), "let i = 0;\nwhile i < 150000 do begin print(\"~\\n\", i); i <- i + 1 end;\n".into(), Some(many)));
+    // nesting far beyond what anyone writes by hand: values 10^5 deep reaching print and dispatch, source
+    // 2*10^4 (parentheses 10^5) deep. Whatever recursion the toolchain uses, it must not run off the native stack.
+    let deep = 100_000usize;
+    v.push((
+        format!("deep-value-print-array-{}", deep),
+        format!("let c = 0;\nlet i = 0;\nwhile i < {} do begin c <- array(1, c); i <- i + 1 end;\nprint(\"built\\n\");\nprint(\"~\\n\", c);\nprint(\"after\\n\");\n", deep),
+        Some(format!("built\n{}0{}\nafter\n", "[".repeat(deep), "]".repeat(deep))),
+    ));
+    v.push((
+        format!("deep-value-print-object-{}", deep),
+        format!("let c = null;\nlet i = 0;\nwhile i < {} do begin c <- object begin let n = c; end; i <- i + 1 end;\nprint(\"built\\n\");\nprint(\"~\\n\", c);\nprint(\"after\\n\");\n", deep),
+        Some(format!("built\n{}null{}\nafter\n", "object(n=".repeat(deep), ")".repeat(deep))),
+    ));
+    v.push((
+        format!("deep-value-dispatch-{}", deep),
+        format!("let c = 5;\nlet i = 0;\nwhile i < {} do begin c <- object extends c begin end; i <- i + 1 end;\nprint(\"built\\n\");\nprint(\"~\\n\", c + 1);\nprint(\"after\\n\");\n", deep),
+        Some("built\n6\nafter\n".to_string()),
+    ));
+    // a failure at the bottom of deep recursion, and on the head of a deeply nested value (whatever the diagnostic
+    // shows of the stack or of the value, composing it must not run off the native stack)
+    for depth in [1_000usize, 100_000, 1_000_000].iter() {
+        v.push((
+            format!("fault-after-recursion-depth-{}", depth),
+            format!("function down(n) -> if n <= 0 then nosuch(1) else 1 + down(n - 1);\nprint(\"start\");\nprint(\" ~\\n\", down({}));\nprint(\"not reached\\n\");\n", depth),
+            Some("start".to_string()),
+        ));
+        v.push((
+            format!("fault-after-method-recursion-depth-{}", depth),
+            format!("let o = object begin function down(n) -> if n <= 0 then this.nosuch else 1 + this.down(n - 1); end;\nprint(\"start\");\nprint(\" ~\\n\", o.down({}));\n", depth),
+            Some("start".to_string()),
+        ));
+    }
+    for (what, fault) in [("unknown-method", "c.nosuch(1)"), ("unknown-field", "c.nosuch"), ("index", "c[7]"), ("operator", "c + 1"), ("field-assignment", "c.nosuch <- 1")].iter() {
+        v.push((
+            format!("fault-after-deep-list-{}-{}", what, deep),
+            format!("let c = null;\nlet i = 0;\nwhile i < {} do begin c <- object begin let next = c; let id = i; end; i <- i + 1 end;\nprint(\"built\");\n{};\nprint(\"not reached\\n\");\n", deep, fault),
+            Some("built".to_string()),
+        ));
+        v.push((
+            format!("fault-after-deep-array-{}-{}", what, deep),
+            format!("let c = 0;\nlet i = 0;\nwhile i < {} do begin c <- array(1, c); i <- i + 1 end;\nprint(\"built\");\n{};\nprint(\"not reached\\n\");\n", deep, fault),
+            Some("built".to_string()),
+        ));
+    }
+    let nest = 20_000usize;
+    v.push((format!("deep-source-blocks-{}", nest), format!("print(\"~\\n\", {}2{});\n", "begin ".repeat(nest), " end".repeat(nest)), Some("2\n".into())));
+    v.push((format!("deep-source-operators-{}", nest), format!("print(\"~\\n\", 0{});\n", " + 1".repeat(nest)), Some(format!("{}\n", nest))));
+    v.push((format!("deep-source-calls-{}", nest), format!("function f(x) -> x;\nprint(\"~\\n\", {}7{});\n", "f(".repeat(nest), ")".repeat(nest)), Some("7\n".into())));
+    v.push((format!("deep-source-parentheses-{}", deep), format!("print(\"~\\n\", {}1{});\n", "(".repeat(deep), ")".repeat(deep)), Some("1\n".into())));
     // a failure right after output that exactly fills, or just misses, the usual buffer sizes, with the
     // last line still open: stdout holds every byte printed before the failure
     for n in [0usize, 1, 1023, 1024, 1025, 4095, 4096, 4097, 8191, 8192, 8193, 65535, 65536, 65537].iter() {
@@ -361,6 +410,33 @@ pub fn c10(ctx: &Ctx, rep: &mut Report) {
             }
             return;
         }
+        if let (Some(shape), Some(true)) = (r.get("shape").and_then(|s| s.as_str()), r.get("regenerate").and_then(|b| b.as_bool())) {
+            // large generated shapes are replayed by name
+            for (name, src, expect) in hostile_shapes(false).into_iter().chain(hostile_shapes(true).into_iter()) {
+                if name != shape {
+                    continue;
+                }
+                let f = dir.join("replay-shape.fml");
+                if std::fs::write(&f, &src).is_err() {
+                    break;
+                }
+                let run = cli::fml_run_file(&f);
+                rep.evaluations += 1;
+                if run.signal == Some(6) && run.err_str().contains("overflowed its stack") {
+                    rep.conclusive += 1;
+                    let family = name.trim_end_matches(|c: char| c.is_ascii_digit()).trim_end_matches('-').to_string();
+                    rep.violation(&format!("C10:native-stack-overflow:{}", family), format!("{}: `fml run` dies by SIGABRT (native stack overflow)", name), r.clone());
+                } else if crash_freedom(rep, &name, "fml run", &run, r) {
+                    if let Some(e) = &expect {
+                        if !run.success() || run.out_str() != *e {
+                            rep.violation(&format!("C10:hostile-shape:{}", name), format!("{}: expected success with the documented output; observed {}", name, run.describe()), r.clone());
+                        }
+                    }
+                }
+                break;
+            }
+            return;
+        }
         let f = dir.join("replay.fml");
         if let Some(b) = r.get("source_b64").and_then(|s| s.as_str()) {
             let bytes = super::super::unb64(b);
@@ -399,7 +475,7 @@ pub fn c10(ctx: &Ctx, rep: &mut Report) {
             continue;
         }
         // the debug build needs most of a minute to refuse 70 000 constants: release only in the quick tier
-        if ctx.quick() && cfg!(debug_assertions) && ["capacity-constants-70000", "capacity-locals-70000", "capacity-fields-40000", "long-run-3000000-iterations", "many-prints-150000"].contains(&name.as_str()) {
+        if ctx.quick() && cfg!(debug_assertions) && ["capacity-constants-70000", "capacity-locals-70000", "capacity-fields-40000", "long-run-3000000-iterations", "many-prints-150000", "fault-after-recursion-depth-1000000", "fault-after-method-recursion-depth-1000000"].contains(&name.as_str()) {
             continue;
         }
         let f = dir.join(format!("h{}.fml", k));
@@ -410,6 +486,18 @@ pub fn c10(ctx: &Ctx, rep: &mut Report) {
         let replay = json!({"check":"C10","source_b64": super::super::b64(src.as_bytes()), "shape": name});
         let run = cli::fml_run_file(&f);
         rep.bump("c10-hostile-shape", name.split(|c: char| c.is_ascii_digit()).next().unwrap_or(&name).trim_end_matches('-'));
+        // native recursion proportional to the nesting depth gets a signature of its own per shape (see
+        // KNOWN_FINDINGS.txt); any other death by signal is reported by crash_freedom as usual
+        if name.starts_with("deep-") && run.signal == Some(6) && run.err_str().contains("overflowed its stack") {
+            rep.conclusive += 1;
+            let family = name.trim_end_matches(|c: char| c.is_ascii_digit()).trim_end_matches('-').to_string();
+            rep.violation(
+                &format!("C10:native-stack-overflow:{}", family),
+                format!("{}: `fml run` dies by SIGABRT, \"thread 'main' has overflowed its stack\" (native recursion proportional to the nesting depth); stdout before it: {:?}", name, cli::truncate(&run.out_str(), 40)),
+                json!({"check":"C10","shape": name, "regenerate": true}),
+            );
+            continue;
+        }
         if crash_freedom(rep, &name, "fml run", &run, &replay) {
             rep.nontrivial(hash_str(&src));
             if let (Some(e), true) = (&expect, name.starts_with("fault-after-")) {
@@ -502,6 +590,57 @@ pub fn c10(ctx: &Ctx, rep: &mut Report) {
                 rep.nontrivial(hash_str(&src));
             }
         }
+    }
+    // (3c) legal programs that merely look suspicious, through every tool: each stage succeeds with nothing on
+    // stderr (a well-meant warning is a diagnostic on a successful run), and the result is what the rules say
+    for (name, src) in stress_sources() {
+        if !["lint-bait", "methods-named-like-builtins", "one-name-everywhere", "empty-lists", "trailing-separators", "algebraic-identities", "only-function-definition", "only-let", "empty-program",
+            "only-comments", "shadowing-four-levels", "member-name-clashes-legal", "constant-lookalikes", "same-text-function-and-method", "parents-of-every-kind", "this-escapes"]
+            .contains(&name.as_str())
+        {
+            continue;
+        }
+        k += 1;
+        if !ctx.mine(k) {
+            continue;
+        }
+        let ast = match real::parse(&src) {
+            Ok(a) => a,
+            Err(_) => continue,
+        };
+        let out = refsem::run(&ast, lim);
+        if !out.judged() || out.failed() {
+            continue;
+        }
+        let f = dir.join(format!("legal{}.fml", k));
+        let j = dir.join(format!("legal{}.json", k));
+        let b = dir.join(format!("legal{}.bc", k));
+        if std::fs::write(&f, &src).is_err() {
+            continue;
+        }
+        let replay = json!({"check":"C10","source_b64": super::super::b64(src.as_bytes()), "legal": name});
+        let stages: Vec<(&str, cli::CliRun)> = vec![
+            ("fml run", cli::fml_run_file(&f)),
+            ("fml parse", cli::run(cli::Spec::new(&["parse", f.to_str().unwrap(), "--format", "json", "-o", j.to_str().unwrap()]))),
+            ("fml compile", cli::run(cli::Spec::new(&["compile", j.to_str().unwrap(), "-o", b.to_str().unwrap()]))),
+            ("fml execute", cli::run(cli::Spec::new(&["execute", b.to_str().unwrap()]))),
+            ("fml disassemble", cli::run(cli::Spec::new(&["disassemble", b.to_str().unwrap()]))),
+        ];
+        for (how, r) in stages.iter() {
+            rep.evaluations += 1;
+            if !crash_freedom(rep, &format!("legal:{}", name), how, r, &replay) {
+                continue;
+            }
+            rep.bump("c10-legal-but-unusual", how);
+            if !r.success() {
+                rep.violation("C10:legal-program-refused", format!("{}: `{}` fails on a legal program: {}", name, how, r.describe()), replay.clone());
+            } else if (*how == "fml run" || *how == "fml execute") && r.out_str() != out.out {
+                rep.violation("C10:legal-program-output", format!("{}: `{}` prints {:?}, the rules say {:?}", name, how, cli::truncate(&r.out_str(), 200), cli::truncate(&out.out, 200)), replay.clone());
+            }
+        }
+        let _ = std::fs::remove_file(&f);
+        let _ = std::fs::remove_file(&j);
+        let _ = std::fs::remove_file(&b);
     }
     // (3b) hand-assembled bytecode through `fml execute`: instructions that are undefined only when they
     // run (undefined escape, placeholder mismatch, unknown function, duplicate members, unknown
@@ -1028,8 +1167,15 @@ fn run_with_log_at(dir: &std::path::Path, src: &str, tag: &str, subdir: bool, vi
         args.push(f.to_str()?.into());
     }
     if let Some(h) = heap_size {
-        args.push("--heap-size".into());
-        args.push(h.into());
+        // both ways of attaching the value, before or after the input file
+        let attached = h.len() % 2 == 1;
+        let at = if tag.ends_with('3') || tag.ends_with('7') { 1 } else { args.len() };
+        if attached {
+            args.insert(at, format!("--heap-size={}", h));
+        } else {
+            args.insert(at, h.into());
+            args.insert(at, "--heap-size".into());
+        }
     }
     args.push("--heap-log".into());
     let argv: Vec<&str> = args.iter().map(|s| s.as_str()).collect();
@@ -1114,19 +1260,91 @@ pub fn c16(ctx: &Ctx, rep: &mut Report) {
     let calibrated = model.per_elem != 0;
     rep.notes.push(format!("calibrated size model on this binary: {:?}", model));
     let replay_src = ctx.replay.as_ref().and_then(|r| r.get("src")).and_then(|s| s.as_str()).map(|s| s.to_owned());
+    // the fixed shapes that are about how many values a program creates come first (one per index), then generated programs
+    let fixed: Vec<(String, String)> = if replay_src.is_some() {
+        vec![]
+    } else {
+        stress_sources()
+            .into_iter()
+            .filter(|(name, _)| {
+                [
+                    "allocation-multiplicity", "empty-allocations", "nested-array-rows", "array-initializer-multiplicity", "constructor-instances", "shared-values", "aliasing-through-containers",
+                    "linked-structures", "polymorphic-sites", "readme-array-size-let", "nested-object-literals", "parents-of-every-kind", "empty-lists", "member-name-clashes", "this-escapes",
+                ]
+                .contains(&name.as_str())
+            })
+            .collect()
+    };
+    // one run whose cumulative size passes 2^32 bytes (4.7 GB of real memory for a few seconds; one shard only; a run
+    // that the machine cannot afford is inconclusive): the allocation history is written down here, not computed
+    if replay_src.is_none() && calibrated && ctx.shard == 5 % ctx.nshards {
+        let src = "print(\"start\\n\");\nlet a = array(200000000, 0);\nlet b = array(100000000, 0);\nlet c = array(3, a);\nlet o = object begin let f = b; end;\nprint(\"~ ~ ~\\n\", a[199999999], b[0], c[2][5]);\n";
+        let allocs = vec![Alloc::Array(200_000_000), Alloc::Array(100_000_000), Alloc::Array(3), Alloc::Object { fields: vec!["f".into()], methods: vec![] }];
+        let f = dir.join("four-gib.fml");
+        let log = dir.join("four-gib.csv");
+        let _ = std::fs::remove_file(&log);
+        if std::fs::write(&f, src).is_ok() {
+            for hs in [None, Some("1"), Some("4096")].iter() {
+                let mut args = vec!["run", f.to_str().unwrap(), "--heap-log", log.to_str().unwrap()];
+                if let Some(h) = hs {
+                    args.push("--heap-size");
+                    args.push(h);
+                }
+                let r = cli::run(cli::Spec::new(&args));
+                let text = std::fs::read_to_string(&log).ok();
+                let _ = std::fs::remove_file(&log);
+                rep.evaluations += 1;
+                let starved = r.timed_out || r.spawn_error.is_some() || r.signal == Some(9) || r.err_str().contains("memory allocation of");
+                if starved {
+                    rep.skip("not enough memory for the 4 GiB probe");
+                    continue;
+                }
+                rep.conclusive += 1;
+                rep.count("cli_runs", 1);
+                rep.bump("c16-allocations", "cumulative size beyond 2^32 bytes");
+                let replay = json!({"check":"C16","src":src});
+                if !r.success() || r.out_str() != "start\n0 0 0\n" {
+                    rep.violation("C16:four-gib-run", format!("a program allocating 4.8 GB in the VM's size model with --heap-log{}: {}", hs.map(|h| format!(" --heap-size {}", h)).unwrap_or_default(), r.describe()), replay.clone());
+                    continue;
+                }
+                match text.as_ref().map(|t| parse_heap_log(t)) {
+                    Some(Ok(recs)) => {
+                        let inc = increments(&recs);
+                        let want: Vec<i64> = allocs.iter().map(|a| model.predict(a)).collect();
+                        if recs.len() != allocs.len() + 1 || inc != want {
+                            rep.violation("C16:four-gib-log", format!("cumulative sizes beyond 2^32: increments {:?}, the shape model predicts {:?}", inc, want), replay.clone());
+                        }
+                    }
+                    other => rep.violation("C16:four-gib-log", format!("no readable heap log: {:?}", other.map(|r| r.err())), replay.clone()),
+                }
+            }
+        }
+        let _ = std::fs::remove_file(&f);
+    }
     let n = if replay_src.is_some() { 1 } else { ctx.share(1_500, 30_000) };
-    let sizes = ["0", "1", "7", "1024", "1048576", "17592186044416", "18446744073709551615"];
+    // (every spelling the documented unsigned-integer option accepts: explicit plus sign, leading zeros)
+    let sizes = ["0", "1", "7", "1024", "1048576", "17592186044416", "18446744073709551615", "+5", "+0", "007", "0000000000000000000001"];
     for i in 0..n {
         if ctx.out_of_time() && i > n / 3 {
             rep.notes.push(format!("time budget reached after {} of {} programs", i, n));
             break;
         }
         let mut rng = ctx.rng("C16", i);
+        // fixed shape number j belongs to shard j mod nshards; this shard takes its share at i = 0, 1, ...
+        let fixed_pick = fixed.iter().enumerate().filter(|(j, _)| j % ctx.nshards == ctx.shard).map(|(_, f)| f).nth(i as usize);
         let (ast, src): (AST, String) = match &replay_src {
             Some(s) => match real::parse(s) {
                 Ok(a) => (a, s.clone()),
                 Err(_) => return,
             },
+            None if fixed_pick.is_some() => {
+                let (name, s) = fixed_pick.unwrap();
+                rep.bump("c16-allocations", &format!("fixed shape {}", name));
+                match real::parse(s) {
+                    Ok(a) => (a, s.clone()),
+                    Err(_) => continue,
+                }
+            }
             None => {
                 let mut o = gen::GenOpts::default();
                 o.budget = 50 + (i % 4) as i32 * 30;
@@ -1194,7 +1412,7 @@ pub fn c16(ctx: &Ctx, rep: &mut Report) {
         rep.count("cli_runs", 1);
         // flag settings: heap-log on (existing dir / new dir, run / execute), several heap sizes
         let settings: Vec<(bool, bool, Option<&str>)> = if ctx.quick() {
-            vec![(i % 2 == 0, i % 3 == 0, None), (false, i % 2 == 1, Some(sizes[(i % 7) as usize])), (true, false, Some(sizes[((i + 3) % 7) as usize]))]
+            vec![(i % 2 == 0, i % 3 == 0, None), (false, i % 2 == 1, Some(sizes[(i % 11) as usize])), (true, false, Some(sizes[((i + 3) % 11) as usize]))]
         } else {
             let mut v = vec![(false, false, None), (true, true, None)];
             for (k, s) in sizes.iter().enumerate() {
@@ -1245,6 +1463,38 @@ pub fn c16(ctx: &Ctx, rep: &mut Report) {
         let odd_pick = odd_paths[(i as usize) % odd_paths.len()].clone();
         let mut settings: Vec<(bool, bool, Option<&str>, Option<std::path::PathBuf>)> = settings.into_iter().map(|(a, b, c)| (a, b, c, None)).collect();
         settings.push((false, i % 2 == 0, if i % 3 == 0 { Some("1") } else { None }, Some(odd_pick)));
+        // the program (source, or bytecode for execute) on standard input and a log file that does not exist yet
+        if i % 4 == 1 {
+            let via_execute = i % 8 == 1;
+            let log = dir.join(format!("{}-stdin-fresh.csv", tag));
+            let _ = std::fs::remove_file(&log);
+            let input: Option<Vec<u8>> = if via_execute { real::compile(&ast).and_then(|p| real::serialize(&p)).ok() } else { Some(src.as_bytes().to_vec()) };
+            if let Some(input) = input {
+                let r = cli::run(cli::Spec::new(&[if via_execute { "execute" } else { "run" }, "--heap-log", log.to_str().unwrap()]).stdin(&input));
+                let text = std::fs::read_to_string(&log).ok();
+                let _ = std::fs::remove_file(&log);
+                rep.evaluations += 1;
+                if !r.timed_out && r.spawn_error.is_none() {
+                    rep.conclusive += 1;
+                    rep.count("cli_runs", 1);
+                    rep.bump("c16-log-location", "fresh file, program on stdin");
+                    let what = format!("{} --heap-log NEWFILE < program", if via_execute { "execute" } else { "run" });
+                    if r.stdout != base.stdout || r.code != base.code || r.signal != base.signal {
+                        rep.violation("C16:flags-change-behaviour:stdin-program", format!("`{}` ends with {}; without flags: {}", what, r.describe(), base.describe()), replay.clone());
+                    } else {
+                        match text.as_ref().map(|t| parse_heap_log(t)) {
+                            None => rep.violation("C16:log-missing", format!("`{}` wrote no heap log", what), replay.clone()),
+                            Some(Err(e)) => rep.violation("C16:log-format", format!("`{}`: heap log is malformed: {}", what, e), replay.clone()),
+                            Some(Ok(recs)) => {
+                                if recs.len() != out.allocs.len() + 1 {
+                                    rep.violation("C16:log-count", format!("`{}`: {} records for {} allocations", what, recs.len(), out.allocs.len()), replay.clone());
+                                }
+                            }
+                        }
+                    }
+                }
+            }
+        }
         for (subdir, via_execute, hs, odd) in settings {
             let (r, text) = match run_with_log_at(&dir, &src, &tag, subdir, via_execute, hs, odd.as_deref()) {
                 Some(x) => x,
